@@ -15,8 +15,8 @@ VERIF = os.path.dirname(os.path.dirname(os.path.abspath(__file__)))
 
 MODES = {
     'C01': ['bnd_doc', 'bnd_tables', 'c07_ol', 'c01_colspan', 'c01_specificity', 'c20_nth', 'c01_engine', 'c01_css'],
-    'C02': ['bnd_tables', 'bnd_doc', 'bnd_c07'],
-    'C03': ['bnd_tables', 'bnd_doc'],
+    'C02': ['bnd_tables', 'bnd_doc', 'bnd_c07', 'bnd_c04'],
+    'C03': ['bnd_tables', 'bnd_doc', 'c03_elements'],
     'C04': ['bnd_c04'],
     'C05': ['bnd_tables'],
     'C06': ['bnd_tables'],
@@ -25,7 +25,7 @@ MODES = {
     'C09': ['bnd_c09', 'c16_affix'],
     'C11': ['bnd_doc', 'bnd_tables'],
     'C12': ['bnd_c12'],
-    'C13': ['bnd_c13'],
+    'C13': ['bnd_c13', 'c13_minwrap'],
     'C14': ['bnd_c14', 'c14_hardwrap'],
     'C15': ['bnd_c15'],
     'C16': ['bnd_doc', 'c16_prefix', 'c16_affix', 'c16_trivial'],
@@ -51,6 +51,8 @@ LEGACY_BOUND = {
     'c14_hardwrap': '3 documents x widths 3..=8: an id whose first word is hard-wrapped still yields exactly one fragment marker',
 }
 STANDS_FOR = {
+    'c03_elements': 'process_dom_node: which element becomes which render node (lists and definition lists with stray children, table sections, captions, form controls, foreign elements), and the table / list constructors that filter their children',
+    'c13_minwrap': 'calc_size_estimate (Text arm: min_width = min(len, min_wrap_width) per text NODE) with width_minus: the two smallest documents showing finding D21',
     'bnd_c04': 'add_inline_text / add_text / flush_word / flush_word_hard_wrap as composed by do_render_node over text nodes and inline elements, against a reference greedy wrapper',
     'bnd_c12': 'the pre path as a whole: process_dom_node (pre, br), do_render_node, new_line_hard, add_text in preserving mode',
     'bnd_c15': 'option plumbing through size estimation (calc_size_estimate), sub-renderers and tables: each option changes only what it documents',
